@@ -373,6 +373,14 @@ impl TaskState<'_> {
 
 impl Drop for TaskState<'_> {
     fn drop(&mut self) {
+        // This task is never polled again, so from now on waking it is a
+        // no-op. Notably a task cancelled while suspended is still flagged as
+        // sleeping here, and destructors run below (or stale clones of the
+        // waker later) must not try to signal the inter-task wakeup stream.
+        self.shared
+            .sleep_state
+            .store(SLEEP_STATE_WOKEN, Ordering::Relaxed);
+
         // If there's an active read of the inter-task stream, go ahead and
         // cancel it, since we're about to drop the stream anyway.
         self.cancel_inter_task_stream_read();
